@@ -134,6 +134,9 @@ type Ctx struct {
 	Subst map[types.Object]ast.Expr
 	// CondLocals: locals holding a conditional constant (see ComputeCondLocals).
 	CondLocals map[types.Object]string
+	// PosSubst, when set, resolves a use of a local to the expression that defines its value at
+	// that use (see InstallReaching); consulted before Subst.
+	PosSubst func(id *ast.Ident) ast.Expr
 }
 
 // ComputeSubst finds the locals of body that are defined exactly once by `x := e` (or a tuple
@@ -279,10 +282,16 @@ func (c *Ctx) ExprStr(e ast.Expr) string {
 	}
 	depth := 0
 	substHook = func(id *ast.Ident) ast.Expr {
+		obj := c.Info.Uses[id]
+		if c.PosSubst != nil && depth <= 24 {
+			if ex := c.PosSubst(id); ex != nil {
+				depth++
+				return ex
+			}
+		}
 		if depth > 6 {
 			return nil
 		}
-		obj := c.Info.Uses[id]
 		if ex, ok := c.Subst[obj]; ok {
 			depth++
 			return ex
@@ -923,7 +932,7 @@ func NegGuard(cond string) string {
 	if strings.HasPrefix(cond, "!") && !strings.ContainsAny(cond[1:], " &|") {
 		return cond[1:]
 	}
-	if strings.HasPrefix(cond, "!(") && strings.HasSuffix(cond, ")") {
+	if strings.HasPrefix(cond, "!(") && strings.HasSuffix(cond, ")") && parensBalanced(cond[2:len(cond)-1]) {
 		return cond[2 : len(cond)-1]
 	}
 	for _, p := range [][2]string{{" != ", " == "}, {" == ", " != "}} {
@@ -941,4 +950,21 @@ func (g gctx) apply(e *Event) {
 	e.Guard = strings.Join(g.guards, " && ")
 	e.Else = g.els
 	e.Loop = g.loop
+}
+
+// parensBalanced: s never closes a parenthesis it did not open, and ends at depth 0.
+func parensBalanced(s string) bool {
+	d := 0
+	for _, r := range s {
+		switch r {
+		case '(':
+			d++
+		case ')':
+			d--
+			if d < 0 {
+				return false
+			}
+		}
+	}
+	return d == 0
 }
